@@ -187,6 +187,19 @@ add(
     "DESIGN.md 6/C15",
 )
 
+add(
+    "C11",
+    "exploration",
+    "Lockstep twins of every scheduler family that accepts random_seed (same arguments, seed and tape-chosen events) with numpy's and "
+    "Python's global generators re-seeded differently before every call of either twin and unrelated instances constructed and driven "
+    "in between; plus fresh-process twins: the same scenario tape (protocol history incl. GP searchers, or a whole simulated Tuner run) "
+    "replayed in two child processes with different PYTHONHASHSEED and global seeds; traces / result tables must be identical. "
+    "1.6e4 twin histories + 48 child pairs quick, 3e5 + 800 thorough.",
+    "MOASHA (no random_seed) and per-trial back-end seeds (seed=None draws from the global generator by design) are outside the quantifier.",
+    "property-based testing (Hypothesis choice tape): metamorphic twins under global-RNG / hash-seed perturbation, fresh-process replay",
+    "DESIGN.md 6/C11",
+)
+
 NOT_YET = {}
 
 ALL = [f"C{i:02d}" for i in range(1, 21)]
